@@ -9,6 +9,7 @@ element values of the property: scalars of every kind, tuples, and sets of scala
 `memE eq S x` is membership up to `==` — the mathematical `x ∈ S`.
 -/
 import MechVerif.Lemmas.SetElem
+import MechVerif.Gen.SetKernels
 namespace MechVerif.SetM
 
 variable {α : Type} {κ : Type} [DecidableEq κ] {eq : α → α → Bool} {key : α → κ}
@@ -314,3 +315,74 @@ theorem C14_sequence_hash_breaks_distinctness :
   decide
 
 end MechVerif.SetM
+
+/-! ### the set kernels as they are written in the source
+
+`Gen/SetKernels.lean` is regenerated from machines/set/src on every run (`tools/extract_setops.py`): for each of the
+twelve binary set operators the expression its `solve` evaluates over its two arguments, in the order its `new`
+binds them.  Its theorem `C14_set_kernels_as_written_ok` (`decide`) says each is — up to writing `x.len() > y.len()`
+for `y.len() < x.len()` — the expression `expected` lists; the theorems here say what those expressions mean. -/
+namespace MechVerif.SetIR
+open MechVerif.SetM
+
+variable {α κ K : Type} [DecidableEq κ] [DecidableEq K] (eq : α → α → Bool) (key : α → κ)
+
+/-- writing a length comparison the other way round changes nothing -/
+theorem C14_norm_keeps_meaning (A B : List α) (e : SExpr) :
+    evalRel eq key A B (norm e) = evalRel eq key A B e := by
+  induction e with
+  | lenGt x y => simp only [norm, evalRel]
+  | and p q ihp ihq => simp only [norm, evalRel, ihp, ihq]
+  | not p ih => simp only [norm, evalRel, ih]
+  | kindGuard s e p o ih => rfl
+  | _ => rfl
+
+/-- **The set-valued kernels as written are the model's operators**: `lhs ∪ rhs` evaluates
+    `lhs.set.union(&rhs.set)` with the operands in this order, and likewise ∩ ∖ Δ. -/
+theorem C14_written_operations_are_the_model (A B : List α) :
+    (expected "union").bind (evalSet eq key A B) = some (union eq key A B) ∧
+    (expected "intersection").bind (evalSet eq key A B) = some (inter eq key A B) ∧
+    (expected "difference").bind (evalSet eq key A B) = some (diff eq key A B) ∧
+    (expected "symmetric_difference").bind (evalSet eq key A B) = some (symdiff eq key A B) :=
+  ⟨rfl, rfl, rfl, rfl⟩
+
+/-- **The relation kernels as written are the model's relations.** -/
+theorem C14_written_relations_are_the_model (A B : List α) :
+    (expected "subset").bind (evalRel eq key A B) = some (isSubset eq key A B) ∧
+    (expected "superset").bind (evalRel eq key A B) = some (isSuperset eq key A B) ∧
+    (expected "proper_subset").bind (evalRel eq key A B) = some (properSubset eq key A B) ∧
+    (expected "proper_superset").bind (evalRel eq key A B) = some (properSuperset eq key A B) ∧
+    (expected "equals").bind (evalRel eq key A B) = some (setEq eq key A B) ∧
+    (expected "not_equals").bind (evalRel eq key A B) = some (!setEq eq key A B) :=
+  ⟨rfl, rfl, rfl, rfl, rfl, rfl⟩
+
+/-- membership kernels: the first argument is the element, the second the set; outside the guard the
+    answer is the constant written in the `else` branch -/
+def evalMem (kind : α → K) (x : α) (S : List α) : SExpr → Option Bool
+  | .kindGuard .a2 .a1 (.call .contains .a2 .a1) o =>
+    some (match kindOf kind S with | some k => if k = kind x then lookup eq key S x else o | none => o)
+  | .kindGuard .a2 .a1 (.not (.call .contains .a2 .a1)) o =>
+    some (match kindOf kind S with | some k => if k = kind x then !lookup eq key S x else o | none => o)
+  | _ => none
+
+/-- **`x ∈ S` as written is the model's membership** (false unless the set's kind is the element's kind and the
+    lookup finds it), and `x ∉ S` is its negation. -/
+theorem C14_written_membership_is_the_model (kind : α → K) (x : α) (S : List α) :
+    (expected "element_of").bind (evalMem eq key kind x S) = some (elementOf eq key kind x S) ∧
+    (expected "not_element_of").bind (evalMem eq key kind x S) = some (!elementOf eq key kind x S) := by
+  constructor
+  · simp only [expected, Option.bind, evalMem, elementOf]
+    cases kindOf kind S with
+    | none => rfl
+    | some k => by_cases h : k = kind x <;> simp [h]
+  · simp only [expected, Option.bind, evalMem, elementOf]
+    cases kindOf kind S with
+    | none => rfl
+    | some k => by_cases h : k = kind x <;> simp [h]
+
+/-! non-vacuity: the extracted kernel of ∖, and an operand swap is refused -/
+example : (Gen.SetKernels.kernels.find? (fun e => e.1 == "difference")).map (·.2) = some (.call .difference .a1 .a2) := by decide
+example : kernelOk ("difference", .call .difference .a2 .a1) = false := by decide
+example : kernelOk ("proper_superset", .and (.call .isSuperset .a1 .a2) (.lenGt .a1 .a2)) = true := by decide
+
+end MechVerif.SetIR
